@@ -228,71 +228,71 @@ Proof.
   - apply eqb_bytes_neq in E. split; [tauto|]. intros [->|H]; [congruence|]. right; split; auto.
 Qed.
 
-Lemma fold_cset_get (v : prefix -> citem) : forall ps c q,
-  cget q (fold_left (fun c p => cset p (v p) c) ps c)
-  = if mem_hash q ps then Some (v q) else cget q c.
-Proof.
-  induction ps as [|p ps IH]; intros c q; cbn [fold_left]; [reflexivity|].
-  rewrite IH. unfold mem_hash at 2. cbn [existsb]. fold (mem_hash q ps).
-  destruct (mem_hash q ps); [now rewrite orb_true_r|]. rewrite orb_false_r.
-  destruct (eqb_bytes q p) eqn:E.
-  - apply eqb_bytes_eq in E. subst. apply cget_cset_eq.
-  - apply eqb_bytes_neq in E. apply cget_cset_ne. congruence.
-Qed.
-
-Lemma store_negatives_inv db exp (resp : list hash) asked :
-  answer_ok db asked resp ->
-  forall l c,
-    (forall h, In h l -> In (prefix_of h) asked) ->
-    cache_inv db c ->
-    (forall q, In q (map prefix_of resp) -> cget q c <> None) ->
-    cache_inv db (fold_left (fun c h =>
-      match cget (prefix_of h) c with
-      | None => cset (prefix_of h) {| c_expiry := exp; c_hashes := [] |} c
-      | Some _ => c
-      end) l c).
-Proof.
-  intros Hans. induction l as [|h l IH]; intros c Hl Hinv Hpos; cbn [fold_left]; auto.
-  apply IH; [intros; apply Hl; now right| |].
-  - destruct (cget (prefix_of h) c) eqn:G; auto.
-    intros p it. destruct (eqb_bytes (prefix_of h) p) eqn:E.
-    + apply eqb_bytes_eq in E. subst p. rewrite cget_cset_eq. intros [= <-] x. cbn.
-      split; [tauto|]. intros [Hx Hp].
-      apply (Hpos (prefix_of h)); auto.
-      rewrite <- Hp. apply in_map. apply Hans. split; auto. rewrite Hp. apply Hl. now left.
-    + apply eqb_bytes_neq in E. rewrite cget_cset_ne by auto. apply Hinv.
-  - intros q Hq. destruct (cget (prefix_of h) c) eqn:G; auto.
-    destruct (eqb_bytes (prefix_of h) q) eqn:E.
-    + apply eqb_bytes_eq in E. subst q. now rewrite cget_cset_eq.
-    + apply eqb_bytes_neq in E. rewrite cget_cset_ne by auto. auto.
-Qed.
-
-Lemma store_in_cache_inv db exp to_req resp c :
-  answer_ok db (map prefix_of to_req) resp ->
-  cache_inv db c ->
-  cache_inv db (store_in_cache exp to_req resp c).
-Proof.
-  intros Hans Hinv. unfold store_in_cache, store_negative, store_positive.
-  set (v := fun p => {| c_expiry := exp;
-                        c_hashes := filter (fun h => eqb_bytes (prefix_of h) p) resp |}).
-  apply store_negatives_inv with (asked := map prefix_of to_req) (resp := resp); auto.
-  - intros h Hh. now apply in_map.
-  - intros p it. rewrite (fold_cset_get v).
-    destruct (mem_hash p (dedup (map prefix_of resp))) eqn:M; [|apply Hinv].
-    apply mem_hash_In, dedup_In, in_map_iff in M. destruct M as (h0 & Hp & H0).
-    intros [= <-] h. cbn. rewrite filter_In, eqb_bytes_eq. split.
-    + intros [Hr Hpre]. split; auto. now apply Hans.
-    + intros [Hd Hpre]. split; auto. apply Hans. split; auto.
-      rewrite Hpre, <- Hp. now apply Hans.
-  - intros q Hq. rewrite (fold_cset_get v).
-    assert (M : mem_hash q (dedup (map prefix_of resp)) = true) by now apply mem_hash_In, dedup_In.
-    rewrite M. discriminate.
-Qed.
-
 Lemma evict_inv db ps : forall c, cache_inv db c -> cache_inv db (fold_left (fun c p => cdel p c) ps c).
 Proof.
   induction ps as [|p ps IH]; intros c H; cbn [fold_left]; auto.
   apply IH. intros q it G. apply cget_cdel_Some in G. now apply H.
+Qed.
+
+(** One [Set], whatever the cache evicts for it and whether or not it keeps
+    the item: exact entries stay exact. *)
+Lemma cset_o_inv db e p it c :
+  cache_inv db c -> entry_ok db p it -> cache_inv db (cset_o e p it c).
+Proof.
+  intros Hc He. unfold cset_o. pose proof (evict_inv db (fst e) c Hc) as H1.
+  destruct (snd e); auto. intros q it'. destruct (eqb_bytes p q) eqn:E.
+  - apply eqb_bytes_eq in E. subst q. rewrite cget_cset_eq. now intros [= <-].
+  - apply eqb_bytes_neq in E. rewrite cget_cset_ne by auto. apply H1.
+Qed.
+
+Lemma store_pos_inv db exp resp asked :
+  answer_ok db asked resp ->
+  forall ps evs c,
+    (forall p, In p ps -> In p (map prefix_of resp)) ->
+    cache_inv db c -> cache_inv db (fst (store_pos exp resp ps evs c)).
+Proof.
+  intros Hans. induction ps as [|p ps IH]; intros evs c Hps Hinv; cbn [store_pos]; auto.
+  destruct (pop evs) as [e evs']. apply IH; [intros; apply Hps; now right|].
+  apply cset_o_inv; auto. intros h. cbn [c_hashes]. rewrite filter_In, eqb_bytes_eq.
+  assert (Hp : In p (map prefix_of resp)) by (apply Hps; now left).
+  apply in_map_iff in Hp. destruct Hp as (h0 & Hp0 & H0). split.
+  - intros [Hr Hpre]. split; auto. now apply Hans.
+  - intros [Hd Hpre]. split; auto. apply Hans. split; auto.
+    rewrite Hpre, <- Hp0. now apply Hans.
+Qed.
+
+Lemma store_neg_inv db exp resp asked :
+  answer_ok db asked resp ->
+  forall l evs c,
+    (forall h, In h l -> In (prefix_of h) asked) ->
+    cache_inv db c ->
+    cache_inv db (fst (store_neg exp (dedup (map prefix_of resp)) l evs c)).
+Proof.
+  intros Hans. induction l as [|h l IH]; intros evs c Hl Hinv; cbn [store_neg]; auto.
+  assert (Hl' : forall h0, In h0 l -> In (prefix_of h0) asked) by (intros; apply Hl; now right).
+  destruct (cget (prefix_of h) c); [now apply IH|].
+  destruct (mem_hash (prefix_of h) (dedup (map prefix_of resp))) eqn:M; [now apply IH|].
+  destruct (pop evs) as [e evs']. apply IH; auto.
+  apply cset_o_inv; auto. intros x. cbn [c_hashes]. split; [intros []|]. intros [Hx Hp].
+  apply mem_hash_false in M. apply M. apply dedup_In. rewrite <- Hp. apply in_map.
+  apply Hans. split; auto. rewrite Hp. apply Hl. now left.
+Qed.
+
+(** [storeInCache] keeps the cache exact for every iteration order of the map
+    and every eviction behaviour of the cache. *)
+Lemma store_in_cache_inv db exp to_req resp order evs c :
+  answer_ok db (map prefix_of to_req) resp ->
+  cache_inv db c ->
+  cache_inv db (fst (store_in_cache exp to_req resp order evs c)).
+Proof.
+  intros Hans Hinv. unfold store_in_cache.
+  pose proof (store_pos_inv db exp resp _ Hans
+                (filter (fun p => mem_hash p (dedup (map prefix_of resp))) order) evs c) as H1.
+  destruct (store_pos exp resp _ evs c) as [c1 evs1]. cbn [fst] in H1.
+  apply store_neg_inv with (asked := map prefix_of to_req); [exact Hans| |].
+  - intros h Hh. apply in_map. exact Hh.
+  - apply H1; auto. intros p Hp. apply filter_In in Hp. destruct Hp as [_ Hp].
+    apply (proj1 (mem_hash_In _ _)) in Hp. apply (proj1 (dedup_In _ _)) in Hp. exact Hp.
 Qed.
 
 (** * Check *)
@@ -326,9 +326,9 @@ Section WithOracles.
     - intros (n & H1 & H2). exists (sha n). split; auto. now apply in_map.
   Qed.
 
-  Lemma check_transparent db svc now host c :
+  Lemma check_transparent db svc order evs now host c :
     cache_inv db c -> svc_ok db svc ->
-    let res := check svc now host c in
+    let res := check svc order evs now host c in
     cache_inv db (fst res) /\
     (o_err (snd res) = false -> o_blocked (snd res) = db_verdict db host) /\
     (o_err (snd res) = true -> fst res = c /\ o_blocked (snd res) = false).
@@ -345,7 +345,11 @@ Section WithOracles.
     - destruct S as (Ehs & Hne & Hclean).
       specialize (Hsvc (map prefix_of hs)).
       destruct (svc (map prefix_of hs)) as [strs|]; cbn [fst snd o_err o_blocked].
-      + split; [now apply store_in_cache_inv|]. split; [|discriminate]. intros _.
+      + pose proof (store_in_cache_inv db ((now + cache_time) / ns_sec)%Z hs (parse_txt strs)
+                      order evs c Hsvc Hinv) as Hst.
+        destruct (store_in_cache _ hs (parse_txt strs) order evs c) as [c' rest].
+        cbn [fst snd o_err o_blocked] in *.
+        split; [exact Hst|]. split; [|discriminate]. intros _.
         unfold db_verdict.
         destruct (find_match (hashes_of host) db) eqn:V.
         * apply find_match_spec in V. destruct V as (h & Hh & Hdb).
@@ -362,20 +366,21 @@ Section WithOracles.
   Qed.
 
   (** A fresh lookup (empty cache, answering service) gives the database's verdict. *)
-  Lemma fresh_check_verdict db svc now host :
-    svc_ok db svc -> o_err (snd (check svc now host [])) = false ->
-    o_blocked (snd (check svc now host [])) = db_verdict db host.
+  Lemma fresh_check_verdict db svc order evs now host :
+    svc_ok db svc -> o_err (snd (check svc order evs now host [])) = false ->
+    o_blocked (snd (check svc order evs now host [])) = db_verdict db host.
   Proof.
-    intros Hs He. apply (check_transparent db svc now host []); auto. intros p it; discriminate.
+    intros Hs He. apply (check_transparent db svc order evs now host []); auto.
+    intros p it; discriminate.
   Qed.
 
   (** Non-interference at the level of [Check]: whatever the cache holds, two
       hosts with the same list of prefixes that both go upstream send the
       same question. *)
-  Lemma check_question_only_prefixes svc1 svc2 now c host1 host2 q1 q2 :
+  Lemma check_question_only_prefixes svc1 svc2 order1 order2 evs1 evs2 now c host1 host2 q1 q2 :
     map prefix_of (hashes_of host1) = map prefix_of (hashes_of host2) ->
-    o_question (snd (check svc1 now host1 c)) = Some q1 ->
-    o_question (snd (check svc2 now host2 c)) = Some q2 ->
+    o_question (snd (check svc1 order1 evs1 now host1 c)) = Some q1 ->
+    o_question (snd (check svc2 order2 evs2 now host2 c)) = Some q2 ->
     q1 = q2.
   Proof.
     intros Hp. unfold HashPrefix.check.
@@ -383,7 +388,7 @@ Section WithOracles.
     pose proof (find_in_cache_spec now c (hashes_of host2)) as S2.
     destruct (find_in_cache now c (hashes_of host1)) as [| |hs1]; try discriminate.
     destruct (find_in_cache now c (hashes_of host2)) as [| |hs2];
-      try (destruct (svc1 _); discriminate).
+      try (destruct (svc1 _); [destruct (store_in_cache _ _ _ _ _ _)|]; discriminate).
     destruct S1 as (E1 & _), S2 as (E2 & _).
     assert (Hq : question suffix hs1 = question suffix hs2).
     { apply question_only_prefixes. subst hs1 hs2.
@@ -392,13 +397,14 @@ Section WithOracles.
       cbn in H. injection H as Hab Hl. cbn [filter].
       assert (El : is_live now c a = is_live now c b) by (unfold is_live, live; now rewrite Hab).
       rewrite El. destruct (is_live now c b); cbn [negb map]; [|rewrite Hab; f_equal]; auto. }
-    destruct (svc1 _), (svc2 _); cbn; congruence.
+    destruct (svc1 _); [destruct (store_in_cache _ _ _ order1 _ _)|];
+      (destruct (svc2 _); [destruct (store_in_cache _ _ _ order2 _ _)|]); cbn; congruence.
   Qed.
 
   (** ** Histories *)
 
   Definition op_ok (db : list hash) (o : op) : Prop :=
-    match o with OCheck _ svc => svc_ok db svc | _ => True end.
+    match o with OCheck _ svc _ _ => svc_ok db svc | _ => True end.
 
   (** Per step, against a reference verdict [v]: a check that did not fail
       returns [v host]; a failed one returns "not blocked" and leaves the
@@ -406,10 +412,10 @@ Section WithOracles.
   Definition step_transparent (v : bytes -> bool) (before : Z * cache) (o : op)
       (res : (Z * cache) * option check_out) : Prop :=
     match o, snd res with
-    | OCheck host _, Some out =>
+    | OCheck host _ _ _, Some out =>
         (o_err out = false -> o_blocked out = v host) /\
         (o_err out = true -> o_blocked out = false /\ snd (fst res) = snd before)
-    | OCheck _ _, None => False
+    | OCheck _ _ _ _, None => False
     | _, _ => True
     end.
 
@@ -434,9 +440,9 @@ Section WithOracles.
     cache_inv db (snd (fst (step sha pubsuf suffix cache_time o st))) /\
     step_transparent (db_verdict db) st o (step sha pubsuf suffix cache_time o st).
   Proof.
-    destruct st as [now c]. intros Hinv Hok. destruct o as [host svc|d|ps]; cbn [step snd] in *.
-    - pose proof (check_transparent db svc now host c Hinv Hok) as H. cbn zeta in H.
-      destruct (check svc now host c) as [c' out]. cbn [fst snd] in *.
+    destruct st as [now c]. intros Hinv Hok. destruct o as [host svc order evs|d|ps]; cbn [step snd] in *.
+    - pose proof (check_transparent db svc order evs now host c Hinv Hok) as H. cbn zeta in H.
+      destruct (check svc order evs now host c) as [c' out]. cbn [fst snd] in *.
       unfold step_transparent. cbn [fst snd]. intuition.
     - cbn. auto.
     - cbn. split; auto. now apply evict_inv.
@@ -451,11 +457,12 @@ Section WithOracles.
     destruct (step_inv db o st Hinv Ho) as [A B]. split; auto.
   Qed.
 
-  Lemma check_no_error svc now host c :
-    (forall asked, svc asked <> None) -> o_err (snd (check svc now host c)) = false.
+  Lemma check_no_error svc order evs now host c :
+    (forall asked, svc asked <> None) -> o_err (snd (check svc order evs now host c)) = false.
   Proof.
     intros H. unfold HashPrefix.check. destruct (find_in_cache _ _ _); auto.
-    specialize (H (map prefix_of hs)). destruct (svc _); [reflexivity|congruence].
+    specialize (H (map prefix_of hs)).
+    destruct (svc _); [destruct (store_in_cache _ _ _ _ _ _); reflexivity|congruence].
   Qed.
 End WithOracles.
 
@@ -516,7 +523,7 @@ Section Final.
 
   (** The verdict of a lookup made with an empty cache at instant [now]. *)
   Definition fresh_verdict (db : list hash) (now : Z) (host : bytes) : bool :=
-    o_blocked (snd (check sha pubsuf suffix cache_time (db_service db) now host [])).
+    o_blocked (snd (check sha pubsuf suffix cache_time (db_service db) [] [] now host [])).
 
   Lemma fresh_verdict_db db now host :
     Forall hash_wf db -> fresh_verdict db now host = db_verdict sha pubsuf db host.
@@ -533,13 +540,14 @@ Section Final.
 
   (** The same in terms of the answer: blocked iff one of the well-formed
       strings of the answer is the full hash of an enumerated name. *)
-  Theorem verdict_answer_spec svc now host strs hs :
+  Theorem verdict_answer_spec svc order evs now host strs hs :
     find_in_cache now [] (hostname_to_hashes sha pubsuf host) = ToRequest hs ->
     svc (map prefix_of hs) = Some strs ->
-    o_blocked (snd (check sha pubsuf suffix cache_time svc now host [])) = true <->
+    o_blocked (snd (check sha pubsuf suffix cache_time svc order evs now host [])) = true <->
     exists h, In h hs /\ In h (parse_txt strs).
   Proof.
-    intros F S. unfold check. rewrite F, S. cbn [snd o_blocked]. apply find_match_spec.
+    intros F S. unfold check. rewrite F, S. destruct (store_in_cache _ _ _ _ _ _).
+    cbn [snd o_blocked]. apply find_match_spec.
   Qed.
 
   Lemma find_in_empty_cache now hashes :
@@ -683,8 +691,16 @@ Module Examples.
   Definition db : list hash := [sha evil].
   Definition ct : Z := (3650 * ns_sec)%Z.
   Definition ops : list op :=
-    [OCheck twin (db_service db); OCheck host1 (db_service db); OAdvance (4000 * ns_sec)%Z;
-     OCheck host1 (fun _ => None); OEvict [prefix_of (sha evil)]; OCheck evil (db_service db)].
+    [OCheck twin (db_service db) [] []; OCheck host1 (db_service db) [] [];
+     OAdvance (4000 * ns_sec)%Z; OCheck host1 (fun _ => None) [] [];
+     OEvict [prefix_of (sha evil)]; OCheck evil (db_service db) [] []].
+  (* a cache so small that the second Set of a check evicts what the first
+     one stored, and the third item is not stored at all *)
+  Definition ops_small : list op :=
+    [OCheck host1 (db_service db) [prefix_of (sha evil)]
+            [([], true); ([prefix_of (sha evil)], true)];
+     OCheck host1 (db_service db) [prefix_of (sha evil)] [([], false)];
+     OCheck evil (db_service db) [] []].
 End Examples.
 
 Example names_example :
@@ -697,26 +713,59 @@ Proof.
   repeat constructor; vm_compute; try reflexivity; intros; discriminate.
 Qed.
 
-(** Why eviction is an operation *between* checks only: if the cache drops the
-    positive entry in the middle of one [storeInCache] (a cache too small for
-    one answer), the negative phase stores an empty entry for a prefix under
-    which the database has a hash, and the next check is answered "clean"
-    from the cache. *)
+(** The store as it was before the repair (commit c62e74a): the second loop
+    looked only at the cache to decide whether a prefix had an answer.  If the
+    cache drops the positive entry in the middle of one [storeInCache] (a
+    cache too small for one answer), that loop stores an empty entry for a
+    prefix under which the database has a hash, and the next check is
+    answered "clean" from the cache. *)
+Module PreFix.
+  Definition store_positive (exp : Z) (resp : list hash) (c : cache) : cache :=
+    fold_left (fun c p =>
+        cset p {| c_expiry := exp;
+                  c_hashes := filter (fun h => eqb_bytes (prefix_of h) p) resp |} c)
+      (dedup (map prefix_of resp)) c.
+
+  Definition store_negative (exp : Z) (to_req : list hash) (c : cache) : cache :=
+    fold_left (fun c h =>
+        match cget (prefix_of h) c with
+        | None => cset (prefix_of h) {| c_expiry := exp; c_hashes := [] |} c
+        | Some _ => c
+        end) to_req c.
+End PreFix.
+
 Example midstore_eviction_poisons :
   let hs := [Examples.sha Examples.evil] in
-  let c := store_negative 3650 hs
-             (cdel (prefix_of (Examples.sha Examples.evil)) (store_positive 3650 hs [])) in
+  let c := PreFix.store_negative 3650 hs
+             (cdel (prefix_of (Examples.sha Examples.evil)) (PreFix.store_positive 3650 hs [])) in
   answer_ok Examples.db (map prefix_of hs) hs /\
   o_blocked (snd (check Examples.sha Examples.pubsuf Examples.sfx Examples.ct
-                    (db_service Examples.db) 0 Examples.evil c)) = false /\
+                    (db_service Examples.db) [] [] 0 Examples.evil c)) = false /\
   o_question (snd (check Examples.sha Examples.pubsuf Examples.sfx Examples.ct
-                    (db_service Examples.db) 0 Examples.evil c)) = None /\
+                    (db_service Examples.db) [] [] 0 Examples.evil c)) = None /\
   db_verdict Examples.sha Examples.pubsuf Examples.db Examples.evil = true.
 Proof.
   cbv zeta. split; [|vm_compute; auto].
   intros h. unfold Examples.db. cbn [In map]. split.
   - intros [<-|[]]. auto.
   - intros [[<-|[]] _]. auto.
+Qed.
+
+(** The same eviction with the store as it is now: the entry is simply
+    missing afterwards, and the next check looks the name up again. *)
+Example midstore_eviction_now :
+  map (fun r => match snd r with
+                | Some o => Some (o_blocked o, match o_question o with Some _ => true | None => false end,
+                                  o_sets_left o)
+                | None => None end)
+      (run Examples.sha Examples.pubsuf Examples.sfx Examples.ct Examples.ops_small (0%Z, []))
+  = [Some (true, true, 0%nat); Some (true, true, 0%nat); Some (true, true, 0%nat)]
+  /\ Forall (op_ok Examples.db) Examples.ops_small.
+Proof.
+  split; [vm_compute; reflexivity|].
+  unfold Examples.ops_small.
+  repeat (apply Forall_cons; [cbn [op_ok]; apply db_service_ok; exact db_wf_example|]).
+  apply Forall_nil.
 Qed.
 
 (** A history that exercises: a clean twin storing a positive entry, a hit
